@@ -3,6 +3,7 @@ package main
 import (
 	"bytes"
 	"fmt"
+	"verif/ref/gf"
 
 	"verif/mc"
 	"verif/ref/dm"
@@ -296,6 +297,98 @@ func runECCSpecial() {
 			for kind := 0; kind < 3; kind++ {
 				if !eccSpecialCase(l, dm.Symbols[i], kind) {
 					return
+				}
+			}
+		})
+}
+
+var dmField = gf.Field{Poly: 0x12D, Size: 256}
+
+// eccRegisterCase: data whose division register, after a short prefix in every interleaved block,
+// is all zero (kind 0), has only its first cell non-zero (1), only its last cell non-zero (2) or is
+// constant (3), followed by z zero codewords and a counting tail. The last ec codewords of the
+// prefix are solved for the wanted state in the reference field.
+func eccRegisterCase(l *mc.Local, s dm.Symbol, kind, z int) bool {
+	data := make([]byte, s.DataCW)
+	ec := s.ECPerBlock()
+	constructible := false
+	for b := 0; b < s.Blocks; b++ {
+		var idx []int
+		for i := b; i < s.DataCW; i += s.Blocks {
+			idx = append(idx, i)
+		}
+		a := 1 + b%2
+		if len(idx) < a+ec+z+1 {
+			for k, i := range idx {
+				data[i] = byte(k*7 + b + 1)
+			}
+			continue
+		}
+		constructible = true
+		prefix := make([]int, a)
+		for q := range prefix {
+			prefix[q] = 66 + 3*q + b
+		}
+		target := make([]int, ec)
+		switch kind {
+		case 1:
+			target[0] = 77
+		case 2:
+			target[ec-1] = 33
+		case 3:
+			for q := range target {
+				target[q] = 5
+			}
+		}
+		u := dmField.TailForParity(prefix, ec, 1, target)
+		blk := append(append([]int{}, prefix...), u...)
+		chkp := make([]byte, len(blk))
+		for q, v := range blk {
+			chkp[q] = byte(v)
+		}
+		if got := dm.RSParity(chkp, ec); !sameInts(got, target) {
+			panic("harness: the constructed prefix does not put the register into the wanted state")
+		}
+		for q := 0; q < z; q++ {
+			blk = append(blk, 0)
+		}
+		for len(blk) < len(idx) {
+			blk = append(blk, (115+len(blk))%256)
+		}
+		for k, i := range idx {
+			data[i] = byte(blk[k])
+		}
+	}
+	if !constructible {
+		l.Count("register_state_not_constructible", 1)
+		return true
+	}
+	name := fmt.Sprintf("register state %s after the prefix of every block, then %d zero codewords", []string{"all zero", "first cell only", "last cell only", "constant"}[kind], z)
+	return eccCompare(l, s, name, data, rcase{Sub: "eccr", Rows: s.Rows, Cols: s.Cols, Vec: name, Index: kind, N: z}, true)
+}
+
+func sameInts(b []byte, v []int) bool {
+	if len(b) != len(v) {
+		return false
+	}
+	for i := range b {
+		if int(b[i]) != v[i] {
+			return false
+		}
+	}
+	return true
+}
+
+func runECCRegister() {
+	chk.Range("ErrorCorrection_EncodeECC200 on data that drives the division register into special states: 30 sizes x state after a short prefix of every block {all zero, only the first cell non-zero, only the last cell non-zero, constant} x {0,1,2,ec} zero codewords after it", len(dm.Symbols),
+		func(i int) string { return fmt.Sprint(dm.Symbols[i]) },
+		func(l *mc.Local, i int) {
+			s := dm.Symbols[i]
+			for kind := 0; kind < 4; kind++ {
+				for _, z := range []int{0, 1, 2, s.ECPerBlock()} {
+					if !eccRegisterCase(l, s, kind, z) {
+						return
+					}
 				}
 			}
 		})
